@@ -137,6 +137,10 @@ static int run_fwd()
             { struct Picky { char c[24]; Picky() noexcept {} explicit Picky(int) { throw 7; } };
               try { auto p = allocate_unique<Picky>(l0, 1); } catch (int) {}
               try { auto p = allocate_unique<Picky>(any_allocator{}, l0, 1); } catch (int) {} }
+            // an array whose third element throws: what was asked for as an array goes back as the same array
+            { static int built; struct Third { char c[24]; Third() { if (++built == 3) throw 7; } };
+              built = 0; try { auto p = allocate_unique<Third[]>(l0, 5); } catch (int) {}
+              built = 0; try { auto p = allocate_unique<Third[]>(any_allocator{}, l0, 4); } catch (int) {} }
         }
         else
             switch (comp)
@@ -157,6 +161,18 @@ static int run_fwd()
 // ---------------- ownership of composable allocators (C08 a) ----------------
 template <class A> static auto cap_of(A& a, int) -> decltype(a.capacity_left()) { return a.capacity_left(); }
 template <class A> static std::size_t cap_of(A& a, long) { return allocator_traits<A>::max_node_size(a); }
+// a tracker that only counts: part of the state a refused release must leave alone
+struct count_tracker
+{
+    static long events;
+    void on_node_allocation(void*, std::size_t, std::size_t) noexcept { ++events; }
+    void on_array_allocation(void*, std::size_t, std::size_t, std::size_t) noexcept { ++events; }
+    void on_node_deallocation(void*, std::size_t, std::size_t) noexcept { ++events; }
+    void on_array_deallocation(void*, std::size_t, std::size_t, std::size_t) noexcept { ++events; }
+};
+long count_tracker::events = 0;
+template <class X> static std::size_t cap_of(tracked_allocator<count_tracker, X>& a, int) { return cap_of(a.get_allocator(), 0) + std::size_t(1000003) * std::size_t(count_tracker::events); }
+template <class X> static std::size_t cap_of(allocator_storage<direct_storage<X>, no_mutex>& a, int) { return cap_of(a.get_allocator(), 0); }
 // memory of an earlier iteration is still live (and owned) after a switch
 template <class A> static void age(A&) {}
 template <std::size_t N, class B> static void age(iteration_allocator<N, B>& a) { a.next_iteration(); }
@@ -185,10 +201,28 @@ static void own_test(const char* name, MkA mk, std::size_t size, std::size_t al,
     for (void* p : pa) { probe(*b, p, false); }
     // boundary addresses of the upstream blocks of the sibling
     for (auto& blk : U.blocks) { probe(*a, U.base + blk.off + blk.size, blk.off + blk.size < U.blocks.front().off + U.blocks.front().size ? false : false); }
+    // arrays: (count, element size) shapes, among them more elements than a node has bytes; the sibling's arrays are refused
+    // (nothing changes), the own ones are accepted
+    struct arr_t { void* p; std::size_t c, s; };
+    std::vector<arr_t> aa_, ab_;
+    const std::size_t shapes[3][2] = {{3, size}, {size + 4, 1}, {2, size > 1 ? size / 2 : 1}};
+    for (auto& sh : shapes)
+    {
+        try { aa_.push_back({tr::allocate_array(*a, sh[0], sh[1], 1), sh[0], sh[1]}); } catch (...) {}
+        try { ab_.push_back({tr::allocate_array(*b, sh[0], sh[1], 1), sh[0], sh[1]}); } catch (...) {}
+    }
+    for (auto& x : ab_)
+    {
+        ++tests; std::size_t before = cap_of(*a, 0);
+        bool r = ctr::try_deallocate_array(*a, x.p, x.c, x.s, 1);
+        if (r) ++wrong_true; else if (cap_of(*a, 0) != before) ++changed;
+    }
     // own pointers are accepted (only where releasing a node really releases it: pools and collections)
     long own_ok = 0;
+    for (auto& x : aa_) { bool r = ctr::try_deallocate_array(*a, x.p, x.c, x.s, 1); own_ok += r; ++tests; if (!r) ++wrong_false; }
     for (void* p : pa) { bool r = ctr::try_deallocate_node(*a, p, size, al); own_ok += r; ++tests; if (!r) ++wrong_false; }
-    std::printf("own %s size=%zu al=%zu allocs=%zu/%zu tests=%ld wrong_true=%ld wrong_false=%ld changed_on_false=%ld own_ok=%ld\n", name, size, al, pa.size(), pb.size(), tests, wrong_true, wrong_false, changed, own_ok);
+    for (auto& x : ab_) ctr::try_deallocate_array(*b, x.p, x.c, x.s, 1);
+    std::printf("own %s size=%zu al=%zu allocs=%zu/%zu tests=%ld wrong_true=%ld wrong_false=%ld changed_on_false=%ld own_ok=%ld arrays=%zu\n", name, size, al, pa.size() + aa_.size(), pb.size() + ab_.size(), tests, wrong_true, wrong_false, changed, own_ok, aa_.size());
     b->~A(); a->~A(); U.take();
 }
 
@@ -207,6 +241,12 @@ static int run_own()
         own_test<memory_stack<up_alloc>>("stack", [=](void* s) { return new (s) memory_stack<up_alloc>(16 + ns * 4); }, ns, al, n);
         own_test<iteration_allocator<2, up_alloc>>("iteration<2>", [=](void* s) { return new (s) iteration_allocator<2, up_alloc>(ns * 2 * std::size_t(n) + 64); }, ns, al, n);
         own_test<aligned_allocator<memory_pool<node_pool, up_alloc>>>("aligned<pool<node>>", [=](void* s) { return new (s) aligned_allocator<memory_pool<node_pool, up_alloc>>(1, memory_pool<node_pool, up_alloc>(ns, 16 + ns * 8)); }, ns, al, n);
+        {
+            using TP = tracked_allocator<count_tracker, memory_pool<array_pool, up_alloc>>;
+            own_test<TP>("tracked<pool<array>>", [=](void* s) { return new (s) TP(count_tracker{}, memory_pool<array_pool, up_alloc>(ns, 16 + ns * 8)); }, ns, al, n);
+            using DS = allocator_storage<direct_storage<memory_pool<array_pool, up_alloc>>, no_mutex>;
+            own_test<DS>("direct_storage<pool<array>>", [=](void* s) { return new (s) DS(memory_pool<array_pool, up_alloc>(ns, 16 + ns * 8)); }, ns, al, n);
+        }
         own_test<fallback_allocator<memory_pool<node_pool, fixed_block_allocator<up_alloc>>, memory_pool<array_pool, up_alloc>>>("fallback<pool,pool>", [=](void* s) { return new (s) fallback_allocator<memory_pool<node_pool, fixed_block_allocator<up_alloc>>, memory_pool<array_pool, up_alloc>>(memory_pool<node_pool, fixed_block_allocator<up_alloc>>(ns, 16 + ns * 4), memory_pool<array_pool, up_alloc>(ns, 16 + ns * 8)); }, ns, al, n);
     }
     return 0;
